@@ -90,7 +90,7 @@ func runLink(goSide func(nc net.Conn) error, refSide func(nc net.Conn, cfg *refp
 	go func() { defer wg.Done(); defer b.Close(); out.refErr = refSide(b, &cfg) }()
 	done := make(chan struct{})
 	go func() { wg.Wait(); close(done) }()
-	prog := func() int64 { return a.(moved).Moved() + b.(moved).Moved() }
+	prog := func() int64 { return a.(moved).Moved() + b.(moved).Moved() + harnessTicks.Load() }
 	if err := waitProgress(done, prog, time.Duration(ev.Scale(20, 60))*time.Second); err != nil {
 		out.stalled = true
 		a.Close()
@@ -436,6 +436,28 @@ func expectGoServerRejects(what, kex, algo string, cfg refpeer.Config) (string, 
 	return "", ""
 }
 
+// expectConsistent is for encodings a receiver may legitimately accept: the exchange either fails
+// or completes with both ends agreeing (equal session ids, data flows) — never anything in between.
+func expectConsistent(what string, goIsClient bool, kex, algo string, cfg refpeer.Config) (string, string) {
+	var gsid, rsid []byte
+	var lo linkOut
+	if goIsClient {
+		lo = runLink(goClientEcho(goClientCfg(kex, algo, nil), 100, &gsid), refServerEcho(&rsid, nil), cfg)
+	} else {
+		lo = runLink(goServerEcho(goServerCfg(kex, goHostSigner(algo, "pipe"), nil), &gsid), refClientExec(100, nil, &rsid), cfg)
+	}
+	if lo.stalled {
+		return "", what + ": stalled"
+	}
+	if lo.goErr == nil && lo.refErr == nil && !bytes.Equal(gsid, rsid) {
+		return fmt.Sprintf("%s: both ends completed but disagree on H (%x vs %x)", what, gsid, rsid), ""
+	}
+	if (lo.goErr == nil) != (lo.refErr == nil) && lo.goErr != nil && strings.Contains(lo.goErr.Error(), "COMPLETED-HANDSHAKE") {
+		return fmt.Sprintf("%s: the Go side completed the handshake but the connection then broke: Go: %v; refpeer: %v", what, lo.goErr, lo.refErr), ""
+	}
+	return "", ""
+}
+
 func c29SignatureCases() []c29Case {
 	initKeys()
 	initAltKeys()
@@ -539,6 +561,97 @@ type badValue struct {
 	label   string
 	content []byte   // wire content of the field
 	ks      [][]byte // shared-secret contents a peer without the check would derive (nil entry = not predictable)
+}
+
+// tValue is a peer value derived from the HONEST one of the running exchange ("a valid value
+// transported outside the valid range"): refpeer keeps its real secret, hashes the bytes it put on
+// the wire and signs the resulting H, so the only thing between the value and a completed exchange
+// is the receiver's validity check.
+type tValue struct {
+	badValue
+	xf        func(honest []byte) []byte // wire content as a function of the honest content
+	fixed     []byte                     // refpeer's ephemeral secret (Ext.FixedSecret), e.g. exponent 1 => honest value g
+	tolerated bool                       // an encoding the RFCs allow a peer to accept: fail or complete consistently
+}
+
+func lit(v badValue) tValue { return tValue{badValue: v} }
+
+func xfv(label string, xf func([]byte) []byte) tValue {
+	return tValue{badValue: badValue{label: label, ks: [][]byte{nil}}, xf: xf}
+}
+
+// c29DHTransforms: honest e/f moved out of [2, p-2] without changing its residue.
+func c29DHTransforms(p *big.Int) []tValue {
+	add := func(k int64) func([]byte) []byte {
+		return func(h []byte) []byte {
+			v := refpeer.MpintValue(h)
+			return refpeer.MpintContent(v.Add(v, new(big.Int).Mul(p, big.NewInt(k))))
+		}
+	}
+	g1 := xfv("p+2(=g^1+p)", add(1))
+	g1.fixed = []byte{1}
+	g2 := xfv("p+4(=g^2+p)", add(1))
+	g2.fixed = []byte{2}
+	g3 := xfv("2p+8(=g^3+2p)", add(2))
+	g3.fixed = []byte{3}
+	nm := xfv("honest-nonminimal-00", func(h []byte) []byte { return append([]byte{0}, h...) })
+	nm.tolerated = true // in range; RFC 4251 forbids the extra byte, a receiver may or may not notice
+	return []tValue{
+		xfv("honest+p", add(1)), xfv("honest+2p", add(2)), xfv("honest+3p", add(3)), xfv("honest-p(negative)", add(-1)), xfv("honest-2p(negative)", add(-2)),
+		xfv("honest+p-nonminimal-0000", func(h []byte) []byte { return append([]byte{0, 0}, add(1)(h)...) }),
+		g1, g2, g3, nm,
+	}
+}
+
+func c29ECTransforms(kex string) []tValue {
+	n := map[string]int{"ecdh-sha2-nistp256": 32, "ecdh-sha2-nistp384": 48, "ecdh-sha2-nistp521": 66}[kex]
+	out := []tValue{
+		xfv("honest+trailing-00", func(h []byte) []byte { return append(append([]byte{}, h...), 0) }),
+		xfv("honest+leading-00", func(h []byte) []byte { return append([]byte{0}, h...) }),
+		xfv("honest-minus-last-byte", func(h []byte) []byte { return h[:len(h)-1] }),
+		xfv("honest-hybrid-form", func(h []byte) []byte { b := append([]byte{}, h...); b[0] = 6 | b[len(b)-1]&1; return b }),
+		xfv("honest-doubled", func(h []byte) []byte { return append(append([]byte{}, h...), h...) }),
+	}
+	comp := xfv("honest-compressed-form", func(h []byte) []byte { return append([]byte{2 | h[len(h)-1]&1}, h[1:1+n]...) })
+	comp.tolerated = true // RFC 5656 section 4: point compression MAY be supported
+	out = append(out, comp)
+	if kex == "ecdh-sha2-nistp521" {
+		// 66 bytes hold values up to 2^528: the honest coordinates plus the field prime still fit
+		p := elliptic.P521().Params().P
+		plus := func(off int) func([]byte) []byte {
+			return func(h []byte) []byte {
+				b := append([]byte{}, h...)
+				v := new(big.Int).SetBytes(b[off : off+n])
+				v.Add(v, p).FillBytes(b[off : off+n])
+				return b
+			}
+		}
+		out = append(out, xfv("honest-x+p", plus(1)), xfv("honest-y+p", plus(1+n)), xfv("honest-x+p,y+p", func(h []byte) []byte { return plus(1 + n)(plus(1)(h)) }))
+	}
+	return out
+}
+
+func c29X25519Transforms() []tValue {
+	tb := xfv("honest+topbit", func(h []byte) []byte { b := append([]byte{}, h...); b[31] |= 0x80; return b })
+	tb.tolerated = true // RFC 7748 section 5: the top bit is masked, the value is valid
+	return []tValue{
+		xfv("honest-31-bytes", func(h []byte) []byte { return h[:31] }),
+		xfv("honest+00-33-bytes", func(h []byte) []byte { return append(append([]byte{}, h...), 0) }),
+		xfv("00+honest-33-bytes", func(h []byte) []byte { return append([]byte{0}, h...) }),
+		tb,
+	}
+}
+
+// setCoeff overwrites 12-bit coefficient i of an ML-KEM encapsulation key (FIPS 203 ByteEncode_12).
+func setCoeff(ek []byte, i int, v uint16) {
+	o := 3 * (i / 2)
+	if i%2 == 0 {
+		ek[o] = byte(v)
+		ek[o+1] = ek[o+1]&0xf0 | byte(v>>8)
+	} else {
+		ek[o+1] = ek[o+1]&0x0f | byte(v<<4)
+		ek[o+2] = byte(v >> 4)
+	}
 }
 
 func c29DHBadValues(p *big.Int) []badValue {
@@ -646,46 +759,63 @@ func c29InvalidCases() []c29Case {
 	hostFor := func(i int) string { return c29HostAlgos[i%len(c29HostAlgos)] }
 	n := 0
 	// addPair: the value is sent to a Go client (field from server) and to a Go server (field from client)
-	addPair := func(kex, family string, v badValue, srvField, cliField string, extra func(e *refpeer.Ext)) {
+	addPair := func(kex, family string, v tValue, srvField, cliField string, extra func(e *refpeer.Ext)) {
 		n++
 		algo := hostFor(n)
-		for _, kc := range v.ks {
-			kc := kc
-			kl := "K-unpredictable"
-			if kc != nil {
-				kl = fmt.Sprintf("K=%x", trunc(kc, 4))
-			}
-			out = append(out, c29Case{name: "invalid|goclient|" + kex + "|" + v.label + "|" + kl, classes: []string{"invalid:" + family + ":" + v.label, "invalid:to-go-client", "invalidkex=" + kex}, nontriv: true, run: func() (string, string) {
-				cfg := refCfg(kex, algo, refHostKey(algo, "pipe"))
-				e := &refpeer.Ext{SkipPeerChecks: true, TamperPub: func(f string, c []byte) []byte {
-					if f == srvField {
-						return v.content
-					}
+		tamper := func(field string) func(string, []byte) []byte {
+			return func(f string, c []byte) []byte {
+				if f != field {
 					return c
-				}}
-				if kc != nil {
-					e.TamperK = func([]byte) []byte { return kc }
 				}
-				if extra != nil {
-					extra(e)
+				if v.xf != nil {
+					return v.xf(c)
 				}
-				cfg.Ext = e
-				return expectGoClientRejects(fmt.Sprintf("invalid %s %s=%s (refpeer continues with %s)", kex, srvField, v.label, kl), kex, algo, cfg, nil)
-			}})
+				return v.content
+			}
+		}
+		classes := func(role string) []string {
+			return []string{"invalid:" + family + ":" + v.label, "invalid-family:" + family, "invalid:" + role, "invalidkex=" + kex}
+		}
+		if srvField != "" {
+			for _, kc := range v.ks {
+				kc := kc
+				kl := "K-unpredictable"
+				switch {
+				case kc != nil:
+					kl = fmt.Sprintf("K=%x", trunc(kc, 4))
+				case v.xf != nil:
+					kl = "K-honest"
+				}
+				out = append(out, c29Case{name: "invalid|goclient|" + kex + "|" + v.label + "|" + kl, classes: classes("to-go-client"), nontriv: true, run: func() (string, string) {
+					cfg := refCfg(kex, algo, refHostKey(algo, "pipe"))
+					e := &refpeer.Ext{SkipPeerChecks: true, TamperPub: tamper(srvField), FixedSecret: v.fixed}
+					if kc != nil {
+						e.TamperK = func([]byte) []byte { return kc }
+					}
+					if extra != nil {
+						extra(e)
+					}
+					cfg.Ext = e
+					what := fmt.Sprintf("invalid %s %s=%s (refpeer hashes the value it sent, signs that H and continues with %s)", kex, srvField, v.label, kl)
+					if v.tolerated {
+						return expectConsistent(what, true, kex, algo, cfg)
+					}
+					return expectGoClientRejects(what, kex, algo, cfg, nil)
+				}})
+			}
 		}
 		if cliField != "" {
-			out = append(out, c29Case{name: "invalid|goserver|" + kex + "|" + v.label, classes: []string{"invalid:" + family + ":" + v.label, "invalid:to-go-server", "invalidkex=" + kex}, nontriv: true, run: func() (string, string) {
+			out = append(out, c29Case{name: "invalid|goserver|" + kex + "|" + v.label, classes: classes("to-go-server"), nontriv: true, run: func() (string, string) {
 				cfg := refCfg(kex, algo, nil)
-				cfg.Ext = &refpeer.Ext{SkipPeerChecks: true, TamperPub: func(f string, c []byte) []byte {
-					if f == cliField {
-						return v.content
-					}
-					return c
-				}}
+				cfg.Ext = &refpeer.Ext{SkipPeerChecks: true, TamperPub: tamper(cliField), FixedSecret: v.fixed}
 				if extra != nil {
 					extra(cfg.Ext)
 				}
-				return expectGoServerRejects(fmt.Sprintf("invalid %s %s=%s", kex, cliField, v.label), kex, algo, cfg)
+				what := fmt.Sprintf("invalid %s %s=%s (refpeer hashes the value it sent and continues)", kex, cliField, v.label)
+				if v.tolerated {
+					return expectConsistent(what, false, kex, algo, cfg)
+				}
+				return expectGoServerRejects(what, kex, algo, cfg)
 			}})
 		}
 	}
@@ -694,19 +824,29 @@ func c29InvalidCases() []c29Case {
 		bits int
 	}{{"diffie-hellman-group1-sha1", 1024}, {"diffie-hellman-group14-sha1", 2048}, {"diffie-hellman-group14-sha256", 2048}, {"diffie-hellman-group16-sha512", 4096},
 		{"diffie-hellman-group-exchange-sha1", 2048}, {"diffie-hellman-group-exchange-sha256", 2048}} {
+		// DH-GEX: the values are relative to the 2048-bit group, so the refpeer client asks for exactly that size
+		gexReq := func(e *refpeer.Ext) { e.GexRequest = &[3]uint32{2048, 2048, 2048} }
 		for _, v := range c29DHBadValues(refpeer.MODP(g.bits)) {
-			// DH-GEX: the values are relative to the 2048-bit group, so the refpeer client asks for exactly that size
-			addPair(g.kex, "dh", v, "f", "e", func(e *refpeer.Ext) { e.GexRequest = &[3]uint32{2048, 2048, 2048} })
+			addPair(g.kex, "dh", lit(v), "f", "e", gexReq)
+		}
+		for _, v := range c29DHTransforms(refpeer.MODP(g.bits)) {
+			addPair(g.kex, "dh", v, "f", "e", gexReq)
 		}
 	}
 	for _, kex := range []string{"curve25519-sha256", "curve25519-sha256@libssh.org"} {
 		for _, v := range c29X25519BadValues() {
+			addPair(kex, "x25519", lit(v), "Q_S", "Q_C", nil)
+		}
+		for _, v := range c29X25519Transforms() {
 			addPair(kex, "x25519", v, "Q_S", "Q_C", nil)
 		}
 	}
 	for _, kex := range []string{"ecdh-sha2-nistp256", "ecdh-sha2-nistp384", "ecdh-sha2-nistp521"} {
 		for _, v := range c29ECBadValues(kex) {
 			v.ks = [][]byte{nil}
+			addPair(kex, "ec", lit(v), "Q_S", "Q_C", nil)
+		}
+		for _, v := range c29ECTransforms(kex) {
 			addPair(kex, "ec", v, "Q_S", "Q_C", nil)
 		}
 	}
@@ -724,7 +864,33 @@ func c29InvalidCases() []c29Case {
 			{"reply-only-ciphertext", mkQ(ctLen, nil), nil}, {"reply-x25519-low-order", mkQ(ctLen, low), nil}, {"reply-x25519-zero", mkQ(ctLen, make([]byte, 32)), nil},
 		} {
 			v.ks = [][]byte{nil}
+			addPair(kex, "mlkem", lit(v), "Q_S", "", nil)
+		}
+		// the same faults cut out of the honest blobs of the running exchange
+		for _, v := range []tValue{
+			xfv("honest-reply-minus-last-byte", func(h []byte) []byte { return h[:len(h)-1] }),
+			xfv("honest-reply+00", func(h []byte) []byte { return append(append([]byte{}, h...), 0) }),
+			xfv("honest-reply-ciphertext-minus-1", func(h []byte) []byte { return append(append([]byte{}, h[:ctLen-1]...), h[ctLen:]...) }),
+			xfv("honest-reply-ciphertext-plus-1", func(h []byte) []byte { return append(append(append([]byte{}, h[:ctLen]...), 0), h[ctLen:]...) }),
+			xfv("honest-reply-x25519-low-order", func(h []byte) []byte { return append(append([]byte{}, h[:ctLen]...), low...) }),
+		} {
 			addPair(kex, "mlkem", v, "Q_S", "", nil)
+		}
+		coeff := func(i int, val uint16) func([]byte) []byte {
+			return func(h []byte) []byte { b := append([]byte{}, h...); setCoeff(b, i, val); return b }
+		}
+		for _, v := range []tValue{
+			xfv("honest-init-minus-last-byte", func(h []byte) []byte { return h[:len(h)-1] }),
+			xfv("honest-init+00", func(h []byte) []byte { return append(append([]byte{}, h...), 0) }),
+			xfv("honest-init-ek-minus-1", func(h []byte) []byte { return append(append([]byte{}, h[:ekLen-1]...), h[ekLen:]...) }),
+			xfv("honest-init-ek-plus-1", func(h []byte) []byte { return append(append(append([]byte{}, h[:ekLen]...), 0), h[ekLen:]...) }),
+			xfv("honest-init-x25519-low-order", func(h []byte) []byte { return append(append([]byte{}, h[:ekLen]...), low...) }),
+			xfv("honest-init-coeff0=q", coeff(0, 3329)), xfv("honest-init-coeff0=q+1", coeff(0, 3330)), xfv("honest-init-coeff0=0xfff", coeff(0, 0xfff)),
+			xfv("honest-init-coeff1=q", coeff(1, 3329)), xfv("honest-init-coeff1=0xfff", coeff(1, 0xfff)),
+			xfv("honest-init-coeff255=q", coeff(255, 3329)), xfv("honest-init-coeff256=q", coeff(256, 3329)), xfv("honest-init-coeff511=0xfff", coeff(511, 0xfff)),
+			xfv("honest-init-coeff512=q", coeff(512, 3329)), xfv("honest-init-coeff766=q+1", coeff(766, 3330)), xfv("honest-init-coeff767=q", coeff(767, 3329)), xfv("honest-init-coeff767=0xfff", coeff(767, 0xfff)),
+		} {
+			addPair(kex, "mlkem", v, "", "Q_C", nil)
 		}
 		// to a Go server: encapsulation key || x25519
 		validEK := func() []byte {
@@ -746,7 +912,7 @@ func c29InvalidCases() []c29Case {
 			v := v
 			n++
 			algo := hostFor(n)
-			out = append(out, c29Case{name: "invalid|goserver|" + kex + "|" + v.label, classes: []string{"invalid:mlkem:" + v.label, "invalid:to-go-server", "invalidkex=" + kex}, nontriv: true, run: func() (string, string) {
+			out = append(out, c29Case{name: "invalid|goserver|" + kex + "|" + v.label, classes: []string{"invalid:mlkem:" + v.label, "invalid-family:mlkem", "invalid:to-go-server", "invalidkex=" + kex}, nontriv: true, run: func() (string, string) {
 				cfg := refCfg(kex, algo, nil)
 				cfg.Ext = &refpeer.Ext{SkipPeerChecks: true, TamperPub: func(f string, c []byte) []byte {
 					if f == "Q_C" {
@@ -780,7 +946,7 @@ func c29InvalidCases() []c29Case {
 			kex, g := kex, g
 			n++
 			algo := hostFor(n)
-			out = append(out, c29Case{name: "invalid|goclient|" + kex + "|group:" + g.label, classes: []string{"invalid:gex-group:" + g.label, "invalid:to-go-client", "invalidkex=" + kex}, nontriv: true, run: func() (string, string) {
+			out = append(out, c29Case{name: "invalid|goclient|" + kex + "|group:" + g.label, classes: []string{"invalid:gex-group:" + g.label, "invalid-family:gex-group", "invalid:to-go-client", "invalidkex=" + kex}, nontriv: true, run: func() (string, string) {
 				cfg := refCfg(kex, algo, refHostKey(algo, "pipe"))
 				cfg.Ext = &refpeer.Ext{SkipPeerChecks: true, GexGroup: func(min, n, max uint32) (*big.Int, *big.Int) { return g.p, g.g },
 					TamperPub: func(f string, c []byte) []byte {
@@ -971,7 +1137,10 @@ func TestC29(t *testing.T) {
 	var cases []c29Case
 	cases = append(cases, c29ValidCases()...)
 	cases = append(cases, c29SignatureCases()...)
-	cases = append(cases, c29InvalidCases()...)
+	// thorough repeats the invalid-value table with fresh honest keys (the transported values derive from them)
+	for r := 0; r < ev.Scale(1, 12); r++ {
+		cases = append(cases, c29InvalidCases()...)
+	}
 	var mine []c29Case
 	for i, k := range cases {
 		if ev.Mine(i) {
